@@ -243,7 +243,7 @@ func checkCmd(opts *RunOpts, args []string) int {
 	opts.Prop = prop
 	seed, _ := strconv.Atoi(os.Getenv("VERIF_SEED"))
 	t0 := time.Now()
-	evPath := filepath.Join(opts.Verif, "evidence", prop+".json")
+	evPath := filepath.Join(outRoot(opts), "evidence", prop+".json")
 	os.MkdirAll(filepath.Dir(evPath), 0o755)
 	pm := loadPropMeta(opts.Verif, prop)
 	ledAll := loadLedger(opts.Verif)[prop]
@@ -397,7 +397,7 @@ func checkCmd(opts *RunOpts, args []string) int {
 	// bounded stand-ins: a violation found there is a concrete failing history on the real code
 	for _, b := range run.Bounded {
 		if b.Violation != "" {
-			dir := filepath.Join(opts.Verif, "replays", prop)
+			dir := filepath.Join(outRoot(opts), "replays", prop)
 			os.MkdirAll(dir, 0o755)
 			rp := filepath.Join(dir, sanitize("bounded."+b.Schema+"."+b.Group)+".replay.txt")
 			os.WriteFile(rp, []byte(fmt.Sprintf("property: %s\nobligation: bounded.%s.group_%s.exclusive\nkind: bounded reachability on the real resolver (single-state Add/Remove from the empty machine)\nfailing-history: %s\n", prop, b.Schema, b.Group, b.Violation)), 0o644)
@@ -486,7 +486,7 @@ func writeEvidence(path string, ev *Evidence) {
 
 // writeReplay persists what is known about a failed obligation.
 func writeReplay(opts *RunOpts, prop string, ob *Obl, run *Run) string {
-	dir := filepath.Join(opts.Verif, "replays", prop)
+	dir := filepath.Join(outRoot(opts), "replays", prop)
 	os.MkdirAll(dir, 0o755)
 	name := sanitize(ob.Name)
 	if len(name) > 150 {
@@ -509,4 +509,13 @@ func writeReplay(opts *RunOpts, prop string, ob *Obl, run *Run) string {
 	}
 	os.WriteFile(p, []byte(b.String()), 0o644)
 	return p
+}
+
+// outRoot: where evidence and replay files go (GOCV_OUT redirects them, so that
+// seeded-change runs against a scratch copy do not overwrite /verif/evidence).
+func outRoot(opts *RunOpts) string {
+	if d := os.Getenv("GOCV_OUT"); d != "" {
+		return d
+	}
+	return opts.Verif
 }
